@@ -29,9 +29,9 @@ const OPS: [&str; 10] = [
 const OP_CODES: [u16; 10] = [0x0002, 0x000b, 0x0005, 0x0006, 0x0012, 0x0008, 0x0009, 0x000a, 0x4002, 0x4004];
 
 fn strings() -> Vec<String> {
-    vec!["".into(), "a".into(), "ü€𝄞".into(), "x".repeat(1023)]
+    vec!["".into(), "a".into(), "ü€𝄞".into(), "x".repeat(255), "ü".repeat(128), "x".repeat(1023)]
 }
-const JOB_IDS: [i32; 5] = [i32::MIN, -1, 0, 1, i32::MAX];
+const JOB_IDS: [i32; 7] = [i32::MIN, -1, 0, 1, 255, 65536, i32::MAX];
 
 fn job_attr(i: u32) -> (String, Vec<Val>) {
     match i {
@@ -454,7 +454,7 @@ pub fn run_c10(ctx: &Ctx) -> ! {
     let mut rep = Report::new(
         ctx,
         "model_checking",
-        "for each of the 10 operations: EVERY sequence of <= 4 (5) builder calls over its setter alphabet (single-valued setters repeated, attribute/attributes interleaved) with arguments from strings {\"\", a, ü€𝄞, 1023 x}, job-id {MIN,-1,0,1,MAX}, last {unset,true,false}, requested-attribute lists of length 0..3 (with duplicate, exactly one), job attributes incl. a nested collection and duplicates; plus a target-URI sweep (8 forms), a payload sweep (none / 5 B / 70 000 B; blocking and async source), the direct constructors, and the raw request/response constructors with every version constant. Oracle R4 (written from the property statement and RFC 8011 4.2-4.3): exact operation code, version 1.1, request-id >= 1, exact groups/attributes/syntaxes/order of requested-attributes, last-wins job attributes, nothing else, payload octets identical; and the same again after to_bytes() -> R1.decode. states = distinct encoded requests; transitions = builder calls; non-trivial = at least one builder call or non-default argument",
+        "for each of the 10 operations: EVERY sequence of <= 4 (5) builder calls over its setter alphabet (single-valued setters repeated, attribute/attributes interleaved) with arguments from strings {\"\", a, ü€𝄞, 255 x, 128 ü (256 octets), 1023 x}, job-id {MIN,-1,0,1,255,65536,MAX}, last {unset,true,false}, requested-attribute lists of length 0..3 (with duplicate, exactly one), job attributes incl. a nested collection and duplicates; plus a target-URI sweep (8 forms), a payload sweep (none / 5 B / 70 000 B; blocking and async source), the direct constructors, and the raw request/response constructors with every version constant. Oracle R4 (written from the property statement and RFC 8011 4.2-4.3): exact operation code, version 1.1, request-id >= 1, exact groups/attributes/syntaxes/order of requested-attributes, last-wins job attributes, nothing else, payload octets identical; and the same again after to_bytes() -> R1.decode. states = distinct encoded requests; transitions = builder calls; non-trivial = at least one builder call or non-default argument",
     );
     let max_calls = ctx.tier.pick(4u32, 5u32);
     let seed = ctx.seed;
